@@ -58,7 +58,16 @@ template <class Dom> struct Run {
     typedef typename FD_t::Element Poly;
     typedef typename Dom::Residu_t Residu_t;
     const Dom& F; FD_t FD;
-    Run(const Dom& f) : F(f), FD(f, Indeter("X"), Replay()) {}
+    // every way of obtaining the factoring domain, in rotation over the cases: (domain, indeterminate, generator) constructor,
+    // (Poly1Dom, generator) constructor, copy construction, default construction followed by assignment
+    static FD_t make(const Dom& f, int mode) {
+        if (mode == 1) { Poly1Dom<Dom, Dense> PD(f, Indeter("X")); return FD_t(PD, Replay()); }
+        FD_t A(f, Indeter("X"), Replay());
+        if (mode == 2) { FD_t B(A); return B; }
+        if (mode == 3) { FD_t B; B = A; return B; }
+        return A;
+    }
+    Run(const Dom& f, int mode = 0) : F(f), FD(make(f, mode)) {}
 
     Poly rd(const std::string& s) {
         Poly P; if (s == "-") { P.resize(0); return P; }
@@ -137,21 +146,16 @@ template <class Dom> struct Run {
     }
 };
 
-// GFqDom keeps the modulus as an integer; Modular<int32_t> has no irreducible(): small adapter
-struct ModP : public Modular<int32_t> {
-    ModP(int32_t p) : Modular<int32_t>(p) {}
-    uint64_t irreducible() const { return 0; }
-    uint64_t exponent() const { return 1; }
-};
+typedef Modular<int32_t> ModP;
 
 int main() {
-    std::string line;
+    std::string line; int mode = -1;
     while (std::getline(std::cin, line)) {
         std::istringstream is(line);
         std::string op, fld, st; std::vector<std::string> a; std::string t;
         if (!(is >> op >> fld >> st)) continue;
         while (is >> t) a.push_back(t);
-        g_stream.clear(); g_pos = 0;
+        g_stream.clear(); g_pos = 0; mode = (mode + 1) % 4;
         if (st != "-") { std::vector<std::string> ts = split(st, ','); for (size_t i = 0; i < ts.size(); ++i) g_stream.push_back(strtoull(ts[i].c_str(), 0, 10)); }
         std::string out;
         try {
@@ -165,30 +169,30 @@ int main() {
                         for (uint64_t i = 0; i <= e; ++i) { mp.push_back((int64_t)(m % P)); m /= P; }
                         cache[fld] = new GFqDom<int64_t>(P, e, mp);
                     }
-                    Run<GFqDom<int64_t> > R(*cache[fld]); out = R.go(op, a);
+                    Run<GFqDom<int64_t> > R(*cache[fld], mode); out = R.go(op, a);
                 } else if (e == 1) {     // prime field through GFqDom (Residu_t = uint64_t): one object per process
                     static std::map<std::string, GFqDom<int64_t>*> cache1;
                     if (!cache1.count(fld)) cache1[fld] = new GFqDom<int64_t>(P, e);
-                    Run<GFqDom<int64_t> > R(*cache1[fld]); out = R.go(op, a);
+                    Run<GFqDom<int64_t> > R(*cache1[fld], mode); out = R.go(op, a);
                 } else {
                     GFqDom<int64_t> F(P, e);
-                    Run<GFqDom<int64_t> > R(F); out = R.go(op, a);
+                    Run<GFqDom<int64_t> > R(F, mode); out = R.go(op, a);
                 }
             } else if (fld.compare(0, 4, "m64:") == 0) {
                 Modular<int64_t> F((int64_t)strtoll(fld.c_str() + 4, 0, 10));
-                Run<Modular<int64_t> > R(F); out = R.go(op, a);
+                Run<Modular<int64_t> > R(F, mode); out = R.go(op, a);
             } else if (fld.compare(0, 5, "mu64:") == 0) {
                 ModU64 F((uint64_t)strtoull(fld.c_str() + 5, 0, 10));
-                Run<ModU64> R(F); out = R.go(op, a);
+                Run<ModU64> R(F, mode); out = R.go(op, a);
             } else if (fld.compare(0, 3, "mI:") == 0) {
                 Modular<Integer> F(Integer(fld.c_str() + 3));
-                Run<Modular<Integer> > R(F); out = R.go(op, a);
+                Run<Modular<Integer> > R(F, mode); out = R.go(op, a);
             } else if (fld.compare(0, 3, "md:") == 0) {
                 Modular<double> F((double)atol(fld.c_str() + 3));
-                Run<Modular<double> > R(F); out = R.go(op, a);
+                Run<Modular<double> > R(F, mode); out = R.go(op, a);
             } else {
                 ModP F((int32_t)atol(fld.c_str()));
-                Run<ModP> R(F); out = R.go(op, a);
+                Run<ModP> R(F, mode); out = R.go(op, a);
             }
         } catch (Exhausted&) { out = "EXHAUSTED"; }
         catch (const char* m) { out = std::string("THROW ") + m; }
